@@ -2,7 +2,7 @@
 from fractions import Fraction
 import z3
 
-from .values import (Choice, SymList, Obj, Unsupported, is_z3, is_bv, is_zint, is_zreal, is_zbool, is_fp,
+from .values import (OPQ, OpaqueFloat, Choice, SymList, Obj, Unsupported, is_z3, is_bv, is_zint, is_zreal, is_zbool, is_fp,
                      is_pyint, zand, zor, znot, zbool, tobool_const)
 from .ctx import PyRaise, NoFork
 from . import ranges
@@ -91,6 +91,8 @@ class Ops:
                 return Fraction(v)
             if self.s.float_mode == "fp":
                 return z3.FPVal(v, z3.Float64())
+            if self.s.float_mode == "opaque":
+                return OPQ
         return v
 
     # ---- truthiness -----------------------------------------------------------------------
@@ -98,6 +100,8 @@ class Ops:
         """Python truth value as bool or z3 Bool."""
         if isinstance(v, bool):
             return v
+        if v is OPQ:
+            return z3.Bool(self.ctx.fresh_name("nondet"))
         if v is None:
             return False
         if is_zbool(v):
@@ -121,6 +125,15 @@ class Ops:
     # ---- binary operators -------------------------------------------------------------------
     def binop(self, op, a, b, where=None):
         ctx = self.ctx
+        if a is OPQ or b is OPQ:
+            if op in ("+", "-", "*", "/", "//", "%", "**"):
+                return OPQ
+            raise Unsupported("operator %s on an abstracted float at %s" % (op, where))
+        if self.s.float_mode == "opaque" and op in ("/", "**") and is_pyint(a) and is_pyint(b):
+            try:
+                return a / b if op == "/" else a ** b      # computed from integers only: kept (e.g. 2 ** (6 - resolution))
+            except ZeroDivisionError:
+                raise PyRaise("ZeroDivisionError", where)
         if isinstance(a, Choice) and not isinstance(b, Choice) and not self._choice_is_num(a):
             raise Unsupported("binary operator on non-numeric choice")
         a = self._num_choice(a)
@@ -343,6 +356,8 @@ class Ops:
 
     # ---- unary --------------------------------------------------------------------------------
     def neg(self, a, where=None):
+        if a is OPQ:
+            return OPQ
         a = self._num_choice(a)
         if not is_z3(a):
             return -a
@@ -361,13 +376,17 @@ class Ops:
         if op in ("in", "not in"):
             r = self.contains(b, a, where)
             return r if op == "in" else znot(r)
+        if a is OPQ or b is OPQ:
+            # comparison of abstracted floats: a fresh, unconstrained Boolean (both outcomes are explored)
+            return z3.Bool(self.ctx.fresh_name("nondet"))
         if op in ("==", "!="):
             r = self.equal(a, b)
             return r if op == "==" else znot(r)
         a = self._num_choice(a)
         b = self._num_choice(b)
         if not is_z3(a) and not is_z3(b):
-            a, b = self.norm_float(a), self.norm_float(b)
+            if not (self.s.float_mode == "opaque"):
+                a, b = self.norm_float(a), self.norm_float(b)
             return {"<": a < b, "<=": a <= b, ">": a > b, ">=": a >= b}[op]
         if is_fp(a) or is_fp(b):
             a, b = self.lift_fp(a), self.lift_fp(b)
